@@ -284,6 +284,15 @@ def explore(prop, cfg, outdir, seed, n, tier, replay, log, timeout):
             r["harness_ok"] = False
             r["harness_out"] = out[-3000:]
     vfiles = sorted(glob.glob(os.path.join(outdir, "cases*.v")))
+    # a case file may import models the property's own theorems do not depend on: build those first
+    need = set()
+    for vf in vfiles:
+        head = open(vf).read(4000)
+        for m in re.finditer(r"From\s+Verif\s+Require\s+(?:Import|Export)\s+(.*?)\.(?:\s|$)", head, flags=re.S):
+            for mod in m.group(1).split():
+                need.add(mod.replace(".", "/") + ".vo")  # make is incremental: nothing happens when it is up to date
+    for rel in sorted(need):
+        step_make(rel, log)
     with ThreadPoolExecutor(max_workers=8) as ex:
         results = list(ex.map(lambda v: step_cases(v, log, timeout), vfiles))
     for vf, res in zip(vfiles, results):
